@@ -210,6 +210,11 @@ def run(prog, rep):
     rep.expect_min("C01.nsphere", 7)
     from .purity import row as _stateless_row
     rep.part(_stateless_row, prog, rep, "C01", 4)
+    # the contour is the image of the sphere under the (conditional) icdf of every variable: the wiring of every family's icdf
+    # and of ConditionalDistribution.icdf is filed here too
+    from .shared import template_rows, conditional_rows
+    template_rows(prog, rep, "C01.template", ["icdf"], 50)
+    conditional_rows(prog, rep, "C01.conditional", ["icdf"], 4)
 
 def tm_rule(prog, rep, fn, b, pmat):
     q = fn.qualname
